@@ -39,6 +39,13 @@ Section C12.
     hv (VTuple [VNone]) = hv (VTuple [VInt 4238894112]).
   Proof. split; [apply seq_collision_ints | apply seq_collision_none]. Qed.
 
+  (* F18: str / path / bytes with one encoding, and empty sequence / empty bytes *)
+  Theorem C12_kind_confusion_refuted : forall s,
+    hv (VTuple [VStr s]) = hv (VTuple [VPath s]) /\
+    hv (VTuple [VStr s]) = hv (VTuple [VBytes (utf8 s)]) /\
+    (utf8 [] = [] -> hv (VTuple [VTuple []]) = hv (VTuple [VBytes []])).
+  Proof. apply kind_confusion_refuted. Qed.
+
   (* the state of a file is the digest of its bytes - under mtime-honesty *)
   Theorem C12_file_state_content_only_partial : forall prefix c path mtime content,
     honest sha_hex utf8 fhash md5_hex prefix c path mtime content ->
@@ -105,6 +112,7 @@ Print Assumptions C12_bytes_separates.
 Print Assumptions C12_int_separates_as_hash.
 Print Assumptions C12_seq_fixed_width_injective.
 Print Assumptions C12_seq_refuted.
+Print Assumptions C12_kind_confusion_refuted.
 Print Assumptions C12_file_state_content_only_partial.
 Print Assumptions C12_file_state_separates_partial.
 Print Assumptions C12_file_state_same_mtime_refuted.
